@@ -39,6 +39,12 @@ EXTRA = [
     # the (memo) flag on left-recursive rules (a leader, a non-leader) and on ordinary rules
     "start: e NEWLINE\ne (memo): e '+' t | t\nt (memo): NUMBER\n",
     "start: a NEWLINE\na (memo): b 'x' | 'p'\nb (memo): a 'y' | 'q'\n",
+    # metas: class name, header (with the {filename} placeholder), subheader, trailer (with {class_name}); a bare meta
+    "@class MyParser\nstart: NAME NEWLINE\n",
+    "@header '''# generated from {filename}\nimport sys\n'''\nstart: NAME NEWLINE\n",
+    "@subheader '''import ast\n'''\n@class P2\nstart: a=NAME NEWLINE { ast.Name(id=a.string) }\n",
+    "@trailer '''\nPARSER = {class_name}\n'''\nstart: NAME (',' NAME)* NEWLINE\n",
+    "@class Q\n@header '''import os\n'''\n@subheader '''X = 1\n'''\n@trailer '''Y = Q\n'''\n@whatever foo\nstart: 'a'+ NEWLINE\n",
     # an explicit action with text after UNREACHABLE, LOCATIONS inside a call
     "start: a=NAME { foo(a, UNREACHABLE) } | NUMBER { UNREACHABLE }\n",
     "start: a=NAME { mk(a, LOCATIONS) } | (NUMBER NUMBER) b=NAME { mk(LOCATIONS) }\n",
@@ -107,7 +113,7 @@ def run_sub(entry, grammars, seed, warmup=()):
         env["PYTHONHASHSEED"] = str(seed)
     p = subprocess.run([common.PY, str(common.VERIF / "harness" / "gen_subproc.py")],
                        input=json.dumps({"entry": entry, "grammars": grammars, "warmup": list(warmup)}),
-                       capture_output=True, text=True, env=env, timeout=900)
+                       capture_output=True, text=True, env=env, timeout=900 * common.TMULT)
     if p.returncode != 0:
         return None, p.stderr[-800:]
     return {int(k): v for k, v in json.loads(p.stdout).items()}, None
